@@ -6,5 +6,6 @@ pub mod envmodel;
 pub mod fsutil;
 pub mod layermodel;
 pub mod props;
+pub mod trrun;
 pub mod tv;
 pub mod worker;
